@@ -1,5 +1,6 @@
 import Martian.Lemmas.Range
 import Martian.Lemmas.Path
+import Martian.Lemmas.PathBytes
 /-!
 C20 — Synthetic bodies honour Range requests exactly and stay inside their root.
 Only property theorems and non-vacuity examples live here.
@@ -148,6 +149,38 @@ theorem resolved_under_root (rootComps pathComps : List Bytes) :
     cleanComps true (cleanComps true rootComps ++ cleanComps true pathComps)
       = cleanComps true rootComps ++ cleanComps true pathComps :=
   cleanComps_append_rooted _ _ (cleanComps_rooted_plain rootComps)
+
+/-- Byte level, as the static modifier computes it: for a rooted root directory and a rooted request
+path - however dotted or slashed - the components of the resolved file name
+`filepath.Join(Clean(root), Clean(path))` are the root's components followed by the cleaned path's
+components, and no `..` is among the latter: the file lies beneath the root. -/
+theorem resolved_bytes_under_root (root p : Bytes) (hr : isRooted root = true) (hp : isRooted p = true) :
+    comps (resolve root p) = comps (clean root) ++ comps (clean p) ∧ dotdot ∉ comps (clean p) := by
+  have hcr := clean_rooted_isRooted root hr
+  have hcp := clean_rooted_isRooted p hp
+  have hner : (clean root).isEmpty = false := by cases h : clean root <;> simp_all [isRooted]
+  have hnep : (clean p).isEmpty = false := by cases h : clean p <;> simp_all [isRooted]
+  have hX : isRooted (clean root ++ [slash] ++ clean p) = true := by
+    cases h : clean root with
+    | nil => simp [h] at hner
+    | cons c r => rw [h] at hcr; simpa [isRooted] using hcr
+  constructor
+  · unfold resolve join2
+    simp only [hner, hnep, Bool.false_and, Bool.false_eq_true, if_false]
+    rw [comps_clean_rooted _ hX]
+    have hsplit : split (clean root ++ [slash] ++ clean p) slash = split (clean root) slash ++ split (clean p) slash := by
+      have : clean root ++ [slash] ++ clean p = clean root ++ slash :: clean p := by simp
+      rw [this, split_append_sep]
+    rw [hsplit, ← cleanComps_filter, List.filter_append]
+    have e1 : (split (clean root) slash).filter (· ≠ []) = comps (clean root) := rfl
+    have e2 : (split (clean p) slash).filter (· ≠ []) = comps (clean p) := rfl
+    rw [e1, e2]
+    apply cleanComps_plain
+    intro x hx
+    rcases List.mem_append.mp hx with h | h
+    · rw [comps_clean_rooted root hr] at h; exact cleanComps_rooted_plain _ x h
+    · rw [comps_clean_rooted p hp] at h; exact cleanComps_rooted_plain _ x h
+  · rw [comps_clean_rooted p hp]; exact clean_rooted_has_no_dotdot _
 
 /-! Non-vacuity / sanity on concrete inputs (tests, labelled as such). -/
 example : respond (strBytes "0123456789") (some (strBytes "bytes=5-20"))
